@@ -1,5 +1,6 @@
 import PgBifrost.Proofs.ClientC07b
 import PgBifrost.Proofs.ClientC07c
+import PgBifrost.Gen.FrameSrc
 /-!
 # C07 — transaction framing and delivery-instance identity assigned by the client
 
@@ -146,5 +147,50 @@ example : c07OneCommit [(⟨[], .keepalive false 0 0, false⟩, [.fwd .commit "7
 example : c07Framing [(⟨[], .keepalive false 0 0, false⟩, []),
     (⟨[], .data 1 (.begin "7") 5 [], false⟩, [.fwd .begin "7" (some ("7", 5)) 1]),
     (⟨[], .data 2 (.begin "8") 6 [], false⟩, [.fwd .begin "8" (some ("8", 6)) 2])] = false := by decide
+
+/-! ## the framing logic is the one in the source -/
+section source
+open PgBifrost.Gen.FrameSrc
+
+/-- the framing fields of the client model's state -/
+def frameOf (s : State) : Frame := ⟨s.highest, s.sawCommit, s.firstIter, s.openFlag, s.txn, s.key⟩
+
+/-- **the client model's handling of BEGIN / COMMIT / row changes is `handleXLogData`'s**
+(`framing_as_in_source`). `Gen/FrameSrc.lean` is the COMMIT block and the BEGIN block of `handleXLogData`
+TRANSLATED on every run (the running maximum of COMMIT positions, `sawCommit`, `deliveryOpen`, the
+no-COMMIT-before-BEGIN branch with `connManager.Close()` and its early return, the new transaction id and
+delivery key `transaction + "-" + UnixNano`, the flags). For the model of the code as it is (`.fixedC`), every
+state, every message and every blocked-output pattern: the framing fields afterwards, whether the connection
+is closed, and what is forwarded with which transaction id and key are exactly what the translation says. -/
+theorem framing_as_in_source (s : State) (lsn : Nat) (nanos : Nat) (blocks : List (List Nat)) :
+    (∀ xid, let r := handleData .fixedC s lsn (.begin xid) nanos blocks
+            let g := frame (frameOf s) false true lsn xid nanos
+            frameOf r.1.1 = g.1 ∧ hasClose r.1.2 = g.2.1 ∧
+            fwdsOf r.1.2 = if g.2.2 then [(.begin, g.1.txn, g.1.key, lsn)] else []) ∧
+    (∀ x, let r := handleData .fixedC s lsn (.commit x) nanos blocks
+          let g := frame (frameOf s) true false lsn "" nanos
+          frameOf r.1.1 = g.1 ∧ hasClose r.1.2 = g.2.1 ∧
+          fwdsOf r.1.2 = if g.2.2 then [(.commit, g.1.txn, g.1.key, lsn)] else []) ∧
+    (let r := handleData .fixedC s lsn .change nanos blocks
+     let g := frame (frameOf s) false false lsn "" nanos
+     frameOf r.1.1 = g.1 ∧ hasClose r.1.2 = g.2.1 ∧
+     fwdsOf r.1.2 = if g.2.2 then [(.change, g.1.txn, g.1.key, lsn)] else []) := by
+  refine ⟨?_, ?_, ?_⟩
+  · intro xid
+    by_cases hd : beginDropped s = true
+    · have hd' : (!s.sawCommit && !s.firstIter) = true := hd
+      simp [handleData, hd, frame, frameOf, hd', Id.run, dropState, fwdsOf, hasClose, pure, bind]
+    · have hd' : (!s.sawCommit && !s.firstIter) = false := by simpa [beginDropped] using hd
+      simp [handleData, hd, frame, frameOf, hd', Id.run, forward_eq, acceptState, stampBegin, trackOpen, pure, bind]
+  · intro x
+    by_cases hh : s.highest < lsn
+    · simp [handleData, frame, frameOf, hh, Id.run, forward_eq, commitState, trackOpen, Nat.max_def, Nat.le_of_lt hh, pure, bind]
+    · have : ¬ s.highest ≤ lsn ∨ s.highest = lsn := by omega
+      rcases this with h | h
+      · simp [handleData, frame, frameOf, hh, h, Id.run, forward_eq, commitState, trackOpen, Nat.max_def, pure, bind]
+      · simp [handleData, frame, frameOf, h, Id.run, forward_eq, commitState, trackOpen, Nat.max_def, pure, bind]
+  · simp [handleData, frame, frameOf, Id.run, forward_eq, trackOpen, pure, bind]
+
+end source
 
 end PgBifrost.Props.C07
